@@ -57,6 +57,9 @@ Definition wst_eqb (a b : wst) : bool :=
 Definition rank (w : wst) : nat :=
   match w with NotYet => 0 | Spawned => 1 | Started => 2 | Stored => 3 | Logged => 4 | Released => 5 end.
 
+(* transitions worker still has to make *)
+Definition togo (w : wst) : nat := 5 - rank w.
+
 (* between its "start" and "done" log lines *)
 Definition isrun (w : wst) : nat := match w with Started | Stored => 1 | _ => 0 end.
 (* holding a token of the semaphore *)
@@ -130,7 +133,7 @@ Definition is_returned (s : st) : bool := match pc s with PReturned => true | _ 
 (* remaining number of transitions: every step decreases it by exactly one *)
 Definition pc_measure (p : pcs) : nat :=
   match p with PSpawn _ => S limit | PWait j => S (limit - j) | PReturned => 0 end.
-Definition measure (s : st) : nat := count (fun w => 5 - rank w) (ws s) + pc_measure (pc s).
+Definition measure (s : st) : nat := count togo (ws s) + pc_measure (pc s).
 
 (* ---- executable trace acceptor ----
    Internal (unobservable) steps are taken eagerly: they never disable an observable one
